@@ -107,6 +107,20 @@ static double _GD_GetIndex(DIRFILE* D, gd_entry_t *E, int repr, double value,
     /* binary search until either we find the end or we find a subdomain in
      * which our value lies */
     for (;;) {
+      if (high - low <= 1) {
+        /* nothing left between the last sample read and the first sample known
+         * to be missing: low is the EOF */
+        if (low == field_start) {
+          _GD_SetError(D, GD_E_DOMAIN, GD_E_DOMAIN_EMPTY, NULL, 0, NULL);
+          dreturn("%.15g", sample);
+          return sample;
+        }
+
+        sample = _GD_Extrapolate(D, E, repr, value, low, 1);
+        dreturn("%.15g", sample);
+        return sample;
+      }
+
       c = (high + low) / 2;
       n = _GD_DoField(D, E, repr, c, 1, GD_FLOAT64, &c_v);
 
